@@ -612,10 +612,13 @@ def run(ctx):
     for k, w, case in viols:
         ctx.report(k, w, {"phase": "scenario", **case})
     roots = [finals[k] for k in sorted(finals, key=repr)]
+    n_outcomes = len(ctx.outcomes)  # scenario outcomes only (follow-up observations are added below)
     for r in roots[:3]:
         ctx.sample(r)
     depth = 2 if ctx.tier == "quick" else 3
-    fres = explore.explore(_FollowupReport(roots), ctx, depth, label="followup")
+    col = _Collect(ctx)
+    fres = explore.explore(Followup(roots), col, depth, label="followup")
+    col.flush(ctx)
     ctx.stats["scenarios"] = len(scns)
     ctx.stats["executions"] = execs
     ctx.stats["distinct_final_states"] = len(roots)
@@ -624,7 +627,7 @@ def run(ctx):
         transitions=execs + fres["transitions"],
         traces_validated_against_impl=execs + fres["transitions"],
         evaluations=execs + fres["transitions"],
-        distinct_nontrivial=len(ctx.outcomes),
+        distinct_nontrivial=n_outcomes,
         rule="engine B: every scenario (mode x request list x priority x validate x holder configuration of the requested "
              f"resources) x every answer sequence with <= {max_dev} non-default answers at the checkpoint / work / validate "
              "/ between-steps choice points, each executed on a fresh real system; distinct_nontrivial = distinct "
@@ -650,8 +653,20 @@ def run(ctx):
     ]
 
 
-class _FollowupReport(Followup):
-    """tags follow-up cases so that replay() can tell the two phases apart"""
+class _Collect:
+    """stands in for ctx inside explore(): buffers the reports so that they reach the real ctx in an
+    order (and with a first case per key) that does not depend on VERIF_SEED's frontier rotation"""
+
+    def __init__(self, ctx):
+        self.seed, self.outcomes, self.stats, self.sample = ctx.seed, ctx.outcomes, ctx.stats, ctx.sample
+        self.buf = []
+
+    def report(self, key, what, case):
+        self.buf.append((key, len(case["hist"]), repr(case), what, case))
+
+    def flush(self, ctx):
+        for key, _n, _r, what, case in sorted(self.buf, key=lambda x: x[:3]):
+            ctx.report(key, what, case)
 
 
 def replay(ctx, case):
